@@ -1,81 +1,61 @@
 (* C11 — A deleted row stays deleted.
-   Property theorems only: statement, exact, Print Assumptions.  Proofs: proofs/C11P.v (+ SyncP.v).
-   Model: model/Sync.v, the code as it is ([fixed = false]) and with the tombstone lookup of
-   requests/C11-fix-1.diff ([fixed = true]). *)
-From DV Require Import Sync SyncObs SyncP Run_C11 C11P.
+   Property theorems only: statement, exact, Print Assumptions.  Proofs: proofs/SyncP.v, proofs/C11P.v,
+   proofs/C03P.v (deletion records everywhere at quiescence).
+   Model: model/Sync.v = the code after the fix commits ca69f52 (tombstone lookup in
+   Node::filter_existing), bb1bffb (every deletion record of an answer is stored), ad91329 (a deletion
+   record removes only the version it names or an older one).  Both former known-finding classes of
+   C11 are repaired; the statement now holds on the faithful model. *)
+From DV Require Import Sync SyncObs SyncP Run_C11 C11P Run_C03 C03P.
 
-(* the statement at full strength, against the faithful model: on every history the model's own
-   observation passes the property's oracle (after every step the touched peer shows no row at or
-   below a deletion record it has ever shown; after quiet full rounds every record is everywhere) *)
-Definition C11_full : Prop := forall c, spec_C11 c (run_C11 c) = true.
-
-(* refuted: A creates x; B, C pull; A deletes x; B<-A; B<-C; A<-B — the row is back on B and on A,
-   which both hold the deletion record (class 1: Node::filter_existing has no tombstone lookup) *)
-Theorem C11_refuted_witness : spec_C11 witness (run_C11 witness) = false /\ known_C11 witness = [1] /\
-  map (fun r => (length (nodes r), length (tombs r))) (run_sys false (init_sys 3%N) (c11_ops witness)) = [(1, 1); (1, 1); (1, 0)]%nat.
-Proof. exact refuted. Qed.
-Print Assumptions C11_refuted_witness.
-
-Theorem C11_refuted : ~ C11_full.
-Proof. intros H. pose proof (H witness) as E. rewrite (proj1 refuted) in E. discriminate. Qed.
-Print Assumptions C11_refuted.
-
-(* class 3: of two deletion records of one row in one answer the receiver keeps one; the other is
-   never present on that peer *)
-Theorem C11_refuted_collapse : known_C11 witness_collapse = [3] /\
-  map (fun r => length (tombs r)) (run_sys false (init_sys 2%N) (c11_ops witness_collapse)) = [2; 1]%nat.
-Proof. exact refuted_collapse. Qed.
-Print Assumptions C11_refuted_collapse.
-
-(* outside the known class, as the code is: any number of peers, any history, any order of pulls and
-   any selection of days — if no pull stores a row at or below a deletion record its receiver holds
-   (the event that defines class 1) and local writes stay in the envelope (creations use fresh ids,
-   update clocks are not behind the stored version), then after EVERY step no peer shows a row at or
-   below a deletion record it holds.  [run_trace false (init_sys n) ops] are the systems whose dumps
-   [run_C11] prints. *)
-Theorem C11_outside_known : forall n hist final,
+(* the statement, against the faithful model: any number of peers, any history of creations, updates,
+   deletions and pulls in any order, any selection of days by the log comparison — after EVERY step no
+   peer shows a row at or below (modification date) a deletion record it holds.
+   [run_trace (init_sys n) ops] are the systems whose dumps [run_C11] prints.
+   The only hypothesis is the envelope of the local writes, decided on the run itself: creations use
+   ids the peer does not know yet (the code draws fresh uids) and no local update carries a clock that
+   is behind the version it replaces. *)
+Theorem C11_holds : forall n hist final,
   let c := C11Case n hist final in
-  known_C11 c = [] ->
-  ev_guard (run_events false (init_sys n) (c11_ops c)) = false ->
-  forallb inv_sys_b (run_trace false (init_sys n) (c11_ops c)) = true.
-Proof. exact outside_known'. Qed.
-Print Assumptions C11_outside_known.
-
-(* the same with the event spelled out (class 3 histories included: the collapse of two deletion
-   records does not make a row visible again) *)
-Theorem C11_no_resurrection_no_violation : forall n hist final,
-  let c := C11Case n hist final in
-  ev_resurrect (run_events false (init_sys n) (c11_ops c)) = false ->
-  ev_guard (run_events false (init_sys n) (c11_ops c)) = false ->
-  forallb inv_sys_b (run_trace false (init_sys n) (c11_ops c)) = true.
-Proof. exact outside_known. Qed.
-Print Assumptions C11_no_resurrection_no_violation.
+  c11_envelope c = true ->
+  forallb inv_sys_b (run_trace (init_sys n) (c11_ops c)) = true.
+Proof. exact C11P.holds. Qed.
+Print Assumptions C11_holds.
 
 (* a stored deletion record is never lost: its key (row id, deletion date) stays in the peer's log
    through every step *)
-Theorem C11_tombstones_monotone : forall fixed S o p t,
-  has_key (tombs (get p S)) t -> has_key (tombs (get p (fst (fst (step fixed S o))))) t.
-Proof. exact tombstones_monotone. Qed.
+Theorem C11_tombstones_monotone : forall S o p t,
+  has_key (tombs (get p S)) t -> has_key (tombs (get p (fst (fst (step S o))))) t.
+Proof. exact C11P.tombstones_monotone. Qed.
 Print Assumptions C11_tombstones_monotone.
 
-(* with a tombstone lookup in filter_existing (the repair proposed in requests/C11-fix-1.diff) the
-   invariant holds on every history inside the envelope: no hypothesis on pull orders is left *)
-Theorem C11_with_lookup_holds : forall n ops,
-  ev_guard (run_events true (init_sys n) ops) = false ->
-  forallb inv_sys_b (run_trace true (init_sys n) ops) = true.
-Proof. exact with_lookup_holds. Qed.
-Print Assumptions C11_with_lookup_holds.
+(* once all members have synchronised — every ordered pair pulled, with the days a complete log
+   comparison selects, and nothing moved —, every deletion record is present on every member (and by
+   C11_holds the rows it covers are visible nowhere): the members hold the same rows and the same
+   deletion records *)
+Theorem C11_records_everywhere : forall n hist final,
+  let c := C03Case n hist final in
+  known_C03 c = [] -> c03_envelope c = true ->
+  full_round n final = true -> c03_quiet c = true ->
+  all_agree (run_sys (init_sys n) (hist ++ final)) = true.
+Proof. exact C03P.outside_known. Qed.
+Print Assumptions C11_records_everywhere.
 
-Example C11_witness_repaired :
-  map (fun r => (length (nodes r), length (tombs r))) (run_sys true (init_sys 3%N) (c11_ops witness)) = [(0, 1); (0, 1); (1, 0)]%nat /\
-  ev_guard (run_events true (init_sys 3%N) (c11_ops witness)) = false.
-Proof. exact witness_repaired. Qed.
-Print Assumptions C11_witness_repaired.
+(* regression examples (the former refutation witnesses): the 3-peer history delete, B<-A, B<-C, A<-B
+   now leaves the row deleted on B and A ... *)
+Example C11_witness_holds : spec_C11 C11P.witness (run_C11 C11P.witness) = true /\ c11_envelope C11P.witness = true /\
+  map (fun r => (length (nodes r), length (tombs r))) (run_sys (init_sys 3%N) (c11_ops C11P.witness)) = [(0, 1); (0, 1); (1, 0)]%nat.
+Proof. exact C11P.witness_holds. Qed.
+Print Assumptions C11_witness_holds.
+
+(* ... and two deletion records of one row on one day both reach both peers *)
+Example C11_two_records_hold : spec_C11 C11P.witness_two_records (run_C11 C11P.witness_two_records) = true /\
+  map (fun r => (length (nodes r), length (tombs r))) (run_sys (init_sys 2%N) (c11_ops C11P.witness_two_records)) = [(0, 2); (0, 2)]%nat.
+Proof. exact C11P.two_records_hold. Qed.
+Print Assumptions C11_two_records_hold.
 
 Example C11_nonvacuous :
-  ev_resurrect (run_events false (init_sys 3%N) (c11_ops example_ok)) = false /\
-  ev_guard (run_events false (init_sys 3%N) (c11_ops example_ok)) = false /\
-  spec_C11 example_ok (run_C11 example_ok) = true /\
-  map (fun r => (length (nodes r), length (tombs r))) (run_sys false (init_sys 3%N) (c11_ops example_ok)) = [(0, 1); (0, 1); (0, 1)]%nat.
-Proof. exact nonvacuous. Qed.
+  c11_envelope C11P.example_ok = true /\ spec_C11 C11P.example_ok (run_C11 C11P.example_ok) = true /\
+  map (fun r => (map n_mdate (nodes r), length (tombs r))) (run_sys (init_sys 3%N) (c11_ops C11P.example_ok)) =
+  [([5000], 1%nat); ([5000], 1%nat); ([5000], 1%nat)].
+Proof. exact C11P.nonvacuous. Qed.
 Print Assumptions C11_nonvacuous.
